@@ -74,12 +74,18 @@ def real_prescan(data):
         return wire.exc_tag(e)
 
 
+_META_STREAM = []
+
+
 def real_meta(data):
-    """detectEncodingMeta's result on the first 1024 bytes (UTF-16 -> UTF-8 applied), as a name or None"""
-    from html5lib._inputstream import EncodingParser
-    e = EncodingParser(data[:1024]).getEncoding()
-    if e is not None and e.name in ("utf-16le", "utf-16be"):
-        return "utf-8"
+    """the REAL HTMLBinaryInputStream.detectEncodingMeta() (prescan of the first 1024 bytes + its UTF-16 -> UTF-8
+    rule) on `data`, as an encoding name or None; one stream object is reused, only its raw stream is replaced"""
+    from html5lib._inputstream import HTMLBinaryInputStream
+    if not _META_STREAM:
+        _META_STREAM.append(HTMLBinaryInputStream(b""))
+    s = _META_STREAM[0]
+    s.rawStream = io.BytesIO(data)
+    e = s.detectEncodingMeta()
     return None if e is None else e.name
 
 
@@ -229,6 +235,15 @@ def prescan_inputs(ctx):
         pre = ctx.rng.choice([b"", b"<a>", b"<!-- x -->", b"<", b"</x>", b"<!x>", b"<p a=b c>", b"</", b'</a b=">"'])
         post = ctx.rng.choice([b"", b">", b" ", b"<meta charset=big5>"])
         out.append((pre + bytes(t) + post, "mutated"))
+    # every label of the Encoding standard's table (so every encoding, all UTF-16 flavours and aliases), as
+    # charset= and as http-equiv/content declaration, plain and with upper case / padding
+    from webencodings.labels import LABELS
+    for lab in sorted(LABELS):
+        lb = lab.encode("ascii")
+        out.append((b"<meta charset=" + lb + b">", "label-charset"))
+        out.append((b'<meta http-equiv="Content-Type" content="text/html; charset=' + lb + b'">', "label-pragma"))
+        out.append((b"<meta content='text/html;charset=" + lb + b"' http-equiv=content-type>", "label-pragma"))
+        out.append((b'<META CHARSET=" ' + lb.upper() + b'\t">', "label-charset"))
     for p in PROBES + TEMPLATES:
         out.append((p, "probe"))
         out.append((b"<!doctype html><html><head><title>x</title>" + p + b"</head>", "probe"))
@@ -246,6 +261,10 @@ def prescan_inputs(ctx):
 def bodies(ctx):
     pad = b"<!-- " + b"p" * 1030 + b" -->"
     return [b"", b"x", b"<meta charset=big5>x", b"<meta charset=utf-16>x", b"<meta charset=bogus>",
+            b"<meta charset=utf-16be>x", b"<meta charset=unicodefffe>", b"<meta charset=ucs-2>x",
+            b'<meta http-equiv=content-type content="text/html; charset=UTF-16BE">',
+            b'<meta http-equiv=content-type content="text/html; charset=csunicode">',
+            b"<meta charset=iso-10646-ucs-2><meta charset=koi8-r>",
             b'<meta http-equiv=content-type content="text/html; charset=shift_jis">', pad + b"<meta charset=big5>",
             b"<title>t</title>" + b" " * 1000 + b"<meta charset=gbk>", b"\x00\x00\x00", b"a\xe9b"]
 
